@@ -15,6 +15,8 @@ class ClassDecl:
     supers: List[str] = field(default_factory=list)
     props: Dict[str, Any] = field(default_factory=dict)       # @property name -> (relpath, qualname): inlined real code
     inline: Dict[str, Any] = field(default_factory=dict)      # small helper method -> (relpath, qualname): inlined
+    ctor: Optional[Any] = None                                # (relpath, qualname of __init__): constructor inlined
+    py_names: List[str] = field(default_factory=list)         # dotted names under which the class is called
 
 
 @dataclass
@@ -50,6 +52,7 @@ class FnContract:
     native: Optional[dict] = None  # replay scaffolding: {"setup": "<python source>"}
     verify: bool = True            # False: contract is assumed (trusted), listed as such
     doc: str = ""
+    param_values: Dict[str, Any] = field(default_factory=dict)   # concrete live objects bound to parameters (finite instantiation)
 
     def all_requires(self, reg) -> List[str]:
         r = []
@@ -101,6 +104,7 @@ class Registry:
         self.specs: Dict[str, SpecFn] = {}
         self.axiom_groups: Dict[str, List[Any]] = {"snoc": snoc_axioms()}
         self.predicates: Dict[str, Any] = {}
+        self.macros: Dict[str, Any] = {}       # term-valued spec abbreviations: name -> (params, body)
         self.consts: Dict[str, Any] = {}
         self.exc_parents: Dict[str, str] = {}
         self.lemmas: List[Lemma] = []
@@ -132,6 +136,12 @@ class Registry:
             if fld in cd.fields:
                 return cd.fields[fld]
             stack.extend(cd.supers)
+        return None
+
+    def class_by_callname(self, dotted: str):
+        for cd in self.classes.values():
+            if dotted in cd.py_names:
+                return cd
         return None
 
     def class_prop(self, cls, name):
